@@ -58,6 +58,47 @@ def gen(rng, tier):
                'alpha': akind}
 
 
+def _mono_onto(present, target):
+    # strictly increasing relabelling given as an explicit table (stored like 'bij')
+    return dict(zip(map(str, present), target))
+
+
+_base_gen = gen
+
+
+def gen(rng, tier):  # noqa: F811
+    for case in _base_gen(rng, tier):
+        present = sorted({v for t in case['trajs'] for v in t})
+        n = len(present)
+        # a second strictly increasing relabelling onto an arbitrary alphabet, biased towards alphabets
+        # with negative labels whose largest label is n-1 or n (they look 0-/1-based from one end)
+        r = rng.random()
+        if r < 0.35:
+            top = rng.choice([n - 1, n - 1, n])
+            tgt = sorted(rng.sample(range(-9, top), n - 1)) + [top] if top - (-9) >= n - 1 else list(range(n))
+        elif r < 0.5:
+            tgt = list(range(rng.choice([0, 1, 2, -1]), 99))[:n]
+        else:
+            tgt = sorted(rng.sample(range(-60, 60), n))
+        case['mono2'] = _mono_onto(present, tgt)
+        yield case
+    for _ in range(G.budget(16) if tier == 'quick' else 300):
+        # several trajectories of ONE frame each (2-d shape (N, 1)) and short equal-length sets
+        labs, akind = G.alphabet(rng, k=rng.randint(2, 3))
+        nt = rng.randint(2, 6)
+        L = rng.choice([1, 1, 2])
+        trajs = [[rng.choice(labs) for _ in range(L)] for _ in range(nt)]
+        present = sorted({v for t in trajs for v in t})
+        if len(present) < 2:
+            continue
+        perm = present[:]
+        rng.shuffle(perm)
+        fits = [w for w in WIDTHS if G.fits(trajs, w)]
+        yield {'trajs': trajs, 'lag': 1, 'S': [present[0]], 'F': [present[-1]], 'equal': True, 'mono': [rng.randint(1, 3), rng.randint(-5, 5)],
+               'bij': dict(zip(map(str, present), perm)), 'widths': fits, 'mixed': [rng.choice(fits) for _ in trajs],
+               'alpha': akind + '-single-frame', 'mono2': _mono_onto(present, sorted(rng.sample(range(-9, 9), len(present))))}
+
+
 def corpus():
     return [{'trajs': [[0, 1, 0, 1, 1, 0], [1, 0, 0, 1]], 'lag': 1, 'S': [0], 'F': [1], 'equal': False,
              'mono': [2, 5], 'bij': {'0': 1, '1': 0}, 'widths': list(WIDTHS), 'mixed': ['int32', 'int64'], 'alpha': 'corpus'},
@@ -103,6 +144,9 @@ def impl(case):
     a, b = case['mono']
     out['mono'] = battery([np.array([a * v + b for v in t]) for t in trajs], lag,
                           [a * v + b for v in S], [a * v + b for v in F], which=W)
+    if case.get('mono2'):
+        m2 = {int(k): v for k, v in case['mono2'].items()}
+        out['mono2'] = battery([np.array([m2[v] for v in t]) for t in trajs], lag, [m2[v] for v in S], [m2[v] for v in F], which=W)
     m = {int(k): v for k, v in case['bij'].items()}
     out['bij'] = battery([np.array([m[v] for v in t]) for t in trajs], lag, [m[v] for v in S], [m[v] for v in F],
                          which=['emm', 'coring', 'wt'])
@@ -156,14 +200,31 @@ def judge(case, ibc, answers):
                     break
         # strictly increasing relabelling
         a, b = case['mono']
-        f = lambda v: a * v + b  # noqa
-        mono = r['mono']
+        monos = [('mono', lambda v: a * v + b, lambda s: (int(s) - b) // a)]
+        if r.get('mono2'):
+            m2 = {int(k): v for k, v in case['mono2'].items()}
+            inv2 = {v: k for k, v in m2.items()}
+            monos.append(('mono2', lambda v: m2[v], lambda s: inv2.get(int(s), 'not-a-label:%s' % s)))
+        for mname, f, finv in monos:
+            _judge_mono(case, r, base, r[mname], f, finv, P, _close)
+        # arbitrary bijective relabelling: T permuted consistently
+        m = {int(k): v for k, v in case['bij'].items()}
+        bij = r['bij']
+        if 'err' in bij['emm']:
+            P('impl-vs-spec', 'bijective relabelling rejected: %s' % bij['emm'])
+        else:
+            _judge_bij(case, r, base, bij, m, P)
+    return probs
+
+
+def _judge_mono(case, r, base, mono, f, finv, P, _close):
+    if True:
         if 'err' in mono['emm'] or mono['emm']['T'] != base['emm']['T'] or mono['emm']['st'] != [f(s) for s in base['emm']['st']]:
             P('impl-vs-spec', 'monotone relabelling changes T or does not relabel the states')
         for name in ('its', 'ck'):
             bb, mm = base[name], mono[name]
             if name == 'ck' and 'err' not in bb and 'err' not in mm:
-                mm = {k: dict(d, ck={str(int((int(s) - b) // a)): c for s, c in d['ck'].items()}) for k, d in mm.items()}
+                mm = {k: dict(d, ck={str(finv(s)): c for s, c in d['ck'].items()}) for k, d in mm.items()}
             if not _close(bb, mm, 1e-12):
                 P('impl-vs-spec', 'monotone relabelling changes %s' % name)
         if 'err' not in base['coring'] and mono['coring'].get('trajs') != [[f(v) for v in t] for t in base['coring']['trajs']]:
@@ -172,12 +233,11 @@ def judge(case, ibc, answers):
             P('impl-vs-spec', 'waiting times change under relabelling')
         if 'err' not in base['paths'] and mono['paths'].get('d') != sorted([[f(x) for x in k], vs] for k, vs in base['paths']['d']):
             P('impl-vs-spec', 'pathway keys are not relabelled accordingly')
-        # arbitrary bijective relabelling: T permuted consistently
-        m = {int(k): v for k, v in case['bij'].items()}
-        bij = r['bij']
-        if 'err' in bij['emm']:
-            P('impl-vs-spec', 'bijective relabelling rejected: %s' % bij['emm'])
-        else:
+
+
+def _judge_bij(case, r, base, bij, m, P):
+    if True:
+        if True:
             n = base['emm']['n']
             st0, st1 = base['emm']['st'], bij['emm']['st']
             if sorted(m[s] for s in st0) != st1:
@@ -196,7 +256,6 @@ def judge(case, ibc, answers):
                 P('impl-vs-spec', 'bijective relabelling: cored trajectories not mapped')
             if bij['wt'] != base['wt']:
                 P('impl-vs-spec', 'bijective relabelling changes waiting times')
-    return probs
 
 
 def nontrivial(case, ibc):
